@@ -461,7 +461,11 @@ def rule_fresh(ctx: Ctx):
 
 
 def rule_conjunction(ctx: Ctx):
+    from . import c15
+
     c01.rule_allof(ctx, rule="C08.conj")
+    c01.rule_expected(ctx, rule="C08.conj")
+    c15.rule_copy(ctx, rule="C08.conj")
 
 
 RULES = [rule_regex, rule_optable, rule_build, rule_fast, rule_when, rule_fresh, rule_conjunction]
